@@ -127,7 +127,8 @@ PLANS = {
                       dict(family="rand", rand=FLAT, invariants=['Inv_C04'], properties=['Prop_C04'], tier=1),
                       dict(family="alloc", invariants=["Inv_C04"], properties=["Prop_C04"]),
                       dict(family="place", invariants=["Inv_C04"], properties=["Prop_C04"]))),
-    "C05": dict(cases=step_cases(["deps", "abs", "place"], FULL),
+    "C05": dict(cases=both(step_cases(["deps", "abs", "place"], FULL),
+                           lambda tier, seed: _sim(families.sample(families.export_family("deps4", 1), 300 if tier == "quick" else 5000, seed))),
                 l1=l1(dict(family="deps", invariants=["Inv_C05"], properties=["Live_C05"]),
                       dict(family="abs", invariants=["Inv_C05"]))),
     "C06": dict(cases=step_cases(["deps", "alloc", "pairs", "deps2"], FULL),
@@ -294,6 +295,9 @@ def c09_cases(tier, seed):
         for p in perms:
             ops += [{"op": "rebuild"}, _cmp({"op": "simulate", "ranks": list(p), "light": True}, 1, "C09", "lg")]
         ops += [_cmp({"op": "simulate", "light": True}, 1, "C09", "lg")]          # simply call simulate again
+        # a run with other options in between must leave nothing behind either
+        ops += [{"op": "simulate", "light": True, "opts": {"absL": [1, 2], "rule": "FIFO", "autoAbs": True, "maxTime": 7}},
+                _cmp({"op": "simulate", "light": True}, 1, "C09", "lg")]
         ops += [{"op": "backward", "light": True}, _cmp({"op": "simulate", "light": True}, 1, "C09", "lg")]
         ops += [{"op": "rebuild", "plain": True}, _cmp({"op": "simulate", "light": True}, 1, "C09", "lg")]
         out.append(_hist(cfg, "c09", ops))
@@ -309,7 +313,7 @@ def c09_cases(tier, seed):
 
 def c15_cases(tier, seed):
     out = []
-    pool = _pool(tier, seed, ["deps", "alloc", "placeflat"], 40, 400, dict(), 60, 600)
+    pool = _pool(tier, seed, ["deps", "alloc", "placeflat", "pairs", "conveyor", "abs"], 25, 300, dict(), 60, 600)
     for cfg in pool:
         ks = range(0, 9 if tier == "quick" else 14)
         ops = [{"op": "simulate", "light": True}]
@@ -330,7 +334,7 @@ def c15_cases(tier, seed):
 def c17_cases(tier, seed):
     rng = _random.Random(seed + 17)
     out = []
-    pool = _pool(tier, seed, ["deps", "placeflat"], 50, 500, dict(nested=False, multi_task_comp=False), 60, 600)
+    pool = _pool(tier, seed, ["deps", "placeflat", "conveyor", "abs", "pairs"], 25, 300, dict(nested=False, multi_task_comp=False), 60, 600)
     for cfg in pool:
         ops = [{"op": "simulate", "light": True}]
         combos = [(d, r) for d in (False, True) for r in (False, True)]
@@ -362,7 +366,7 @@ def _with_subtask(tier, seed, n):
 def c18_cases(tier, seed):
     rng = _random.Random(seed + 18)
     out = []
-    pool = _pool(tier, seed, ["abs", "placeflat"], 60, 600, dict(), 80, 800) + _with_subtask(tier, seed, 20)
+    pool = _pool(tier, seed, ["abs", "placeflat", "alloc", "dag", "pairs"], 30, 300, dict(), 80, 800) + _with_subtask(tier, seed, 20)
     for cfg in pool:
         ops = [{"op": "simulate", "light": True}]
         # arbitrary edit sequences on a result that may contain absence steps
@@ -388,7 +392,7 @@ def c18_cases(tier, seed):
 def c16_cases(tier, seed):
     rng = _random.Random(seed + 16)
     out = []
-    pool = _pool(tier, seed, ["deps", "placeflat", "dag"], 40, 400, dict(), 80, 800) + _with_subtask(tier, seed, 20)
+    pool = _pool(tier, seed, ["deps", "placeflat", "dag", "pairs", "conveyor"], 30, 300, dict(), 80, 800) + _with_subtask(tier, seed, 20)
     # numeric edge values: 0 / 0.0 / -1 for every numeric constructor parameter of the model
     for cfg in _rand(tier, seed + 5, 40, 400, "E"):
         cfg = json.loads(json.dumps(cfg))
@@ -548,6 +552,7 @@ def c05_maxtime_cases(tier, seed):
 
 
 PLANS["C20"] = dict(cases=c20_cases)
+
 PLANS["C19"] = dict(cases=report_cases())
 PLANS["C09"] = dict(cases=c09_cases, l1=l1(dict(family="deps", invariants=["Inv_C09"])))
 PLANS["C15"] = dict(cases=c15_cases, l1=l1(dict(family="deps", invariants=["Inv_C15"])))
@@ -655,3 +660,39 @@ def situations(recs):
                                 c["finish_blocked_by_FF_or_SF_gate"] += 1
                 prev = e
     return c
+
+
+def _more_l1(prop, *insts):
+    """Additional model-checking instances (thorough tier only unless quick=True)."""
+    old = PLANS[prop].get("l1", l1())
+    extra = l1(*[dict(i, thorough_only=not i.pop("quick", False)) for i in [dict(x) for x in insts]])
+    PLANS[prop]["l1"] = lambda tier, seed=0: old(tier, seed) + extra(tier, seed)
+
+
+_more_l1("C01", dict(family="deps4", invariants=["Inv_C01"], properties=["Prop_C01"], tier=1))
+_more_l1("C02", dict(family="placeflat", invariants=["Inv_C02"], properties=["Prop_C02"]),
+         dict(family="conveyor", invariants=["Inv_C02"], properties=["Prop_C02"]))
+_more_l1("C03", dict(family="conveyor", invariants=["Inv_C03"], properties=["Prop_C03"]),
+         dict(family="abs", invariants=["Inv_C03"], properties=["Prop_C03"]))
+_more_l1("C04", dict(family="conveyor", invariants=["Inv_C04"], properties=["Prop_C04"]))
+_more_l1("C05", dict(family="alloc", invariants=["Inv_C05"], properties=["Live_C05"], tier=1),
+         dict(family="deps2", invariants=["Inv_C05"], properties=["Live_C05"]),
+         dict(family="deps4", invariants=["Inv_C05"], tier=1))
+_more_l1("C06", dict(family="placeflat", invariants=["Inv_C06"], properties=["Prop_C06"]),
+         dict(family="conveyor", invariants=["Inv_C06"], properties=["Prop_C06"]),
+         dict(family="pairs", invariants=["Inv_C06"], properties=["Prop_C06"], quick=True),
+         dict(family="deps2", invariants=["Inv_C06"], properties=["Prop_C06"]))
+_more_l1("C07", dict(family="pairs", invariants=["Inv_C07"]), dict(family="placeflat", invariants=["Inv_C07"]))
+_more_l1("C08", dict(family="deps", invariants=["Inv_C08", "RunAgrees"]), dict(family="placeflat", invariants=["Inv_C08", "RunAgrees"]),
+         dict(family="pairs", invariants=["Inv_C08", "RunAgrees"]), dict(family="conveyor", invariants=["Inv_C08", "RunAgrees"]))
+_more_l1("C09", dict(family="abs", invariants=["Inv_C09"], tier=1), dict(family="deps2", invariants=["Inv_C09"], tier=1),
+         dict(family="pairs", invariants=["Inv_C09"], tier=1))
+_more_l1("C10", dict(family="pairs", invariants=["Inv_C10"], properties=["Prop_C10"], quick=True))
+_more_l1("C13", dict(family="pairs", invariants=["Inv_C13"], properties=["Prop_C13"]))
+_more_l1("C14", dict(family="placeflat", invariants=["Inv_C14"], properties=["Prop_C14"]),
+         dict(family="dag", invariants=["Inv_C14"], properties=["Prop_C14"], quick=True))
+_more_l1("C15", dict(family="alloc", invariants=["Inv_C15"], tier=1), dict(family="abs", invariants=["Inv_C15"]),
+         dict(family="placeflat", invariants=["Inv_C15"]), dict(family="conveyor", invariants=["Inv_C15"]),
+         dict(family="pairs", invariants=["Inv_C15"], quick=True))
+_more_l1("C17", dict(family="deps2", invariants=["Inv_C17"]), dict(family="abs", invariants=["Inv_C17"]))
+
